@@ -52,6 +52,11 @@ def shards(tier, seed):
             step = max(1, len(sigs) // nsig)
             sigs = sigs[::step]
         cfgs = [spaces.cfg_sig(s, basis=b) for b in bases for s in sigs]
+        if d <= 2:
+            # custom bases whose generator labels start at 0 or 2 (the start index is derived from the basis)
+            cfgs += [spaces.cfg_sig(s, basis=b) for st in (0, 2) for b in spaces.all_bases(d, start=st) for s in sigs]
+        elif d == 3:
+            cfgs += [spaces.cfg_sig(s, basis=b) for st in (0, 2) for b in spaces.bases_by_deviation(3, 1, start=st) for s in sigs[::3]]
         n = max(1, min(64, len(cfgs) // 150))
         for ch in spaces.chunks(cfgs, n):
             sh.append(dict(stratum='custom bases (all for d<=3 in thorough; bounded deviation above) x signatures',
